@@ -236,6 +236,9 @@ MOD_USES = """    use vstd::prelude::*;
     use core::pin::Pin;
     use core::task::{Context as TaskContext, Poll};
     use std::collections::HashMap;
+    use std::ops::{Add, AddAssign, Sub, SubAssign};
+    use std::convert::{TryFrom, TryInto};
+    use std::str::FromStr;
 """
 
 
